@@ -61,39 +61,39 @@ def single_cases():
 
 def batch_cases(maxn):
     out = []
-    ids_pool = [1, 2, '1', 0]
-    for n in range(1, maxn + 1):
-        ids = ids_pool[:n]
-        qs = [{'method': 'm%d' % k, 'params': [k], 'id': i} for k, i in enumerate(ids)]
-        qsets = [qs, qs[:1] + [{'method': 'note', 'params': None, 'id': None}] + qs[1:]]
-        good = [resp(i, 'r', 'v%s' % k) for k, i in enumerate(ids)]
-        for qset in qsets:
-            # every permutation of the complete answer
-            for perm in itertools.permutations(good):
-                out.append((qset, ('json', list(perm))))
-            # success/error mixes in reversed order
-            for kinds in itertools.product(('r', 'e', 'e3'), repeat=n):
-                docs = [resp(i, k, 'v') for i, k in zip(ids, kinds)]
-                out.append((qset, ('json', docs[::-1])))
-            # omissions, duplications, additions, type confusion, null ids
-            for k in range(n):
-                out.append((qset, ('json', good[:k] + good[k + 1:])))
-                out.append((qset, ('json', good + [good[k]])))
-                conf = dict(good[k], id=str(ids[k]) if isinstance(ids[k], int) else 1)
-                out.append((qset, ('json', good[:k] + [conf] + good[k + 1:])))
-                out.append((qset, ('json', good[:k] + [resp(None, 'e')] + good[k:])))
-                out.append((qset, ('json', good[:k] + [resp(None, 'r', 'extra')] + good[k:][::-1])))
-            out.append((qset, ('json', good + [resp(99, 'r', 'x')])))
-            out.append((qset, ('json', good + [resp(None, 'r', 1), resp(None, 'e')])))
-            out.append((qset, ('json', [])))
-            out.append((qset, ('json', resp(None, 'e'))))
-            out.append((qset, ('json', resp(None, 'e3'))))
-            out.append((qset, ('json', resp(1, 'e'))))
-            out.append((qset, ('json', {'jsonrpc': '2.0', 'id': None})))
-            out.append((qset, ('json', good[:-1] + [1])))
-            out.append((qset, ('json', good[:-1] + [{'jsonrpc': '2.0', 'id': ids[-1]}])))
-            out.append((qset, ('garbage', '[')))
-            out.append((qset, ('none',)))
+    for ids_pool in ([1, 2, '1', 0], [0, '', 5, 'a']):        # the second pool starts with the falsy ids
+      for n in range(1, maxn + 1):
+          ids = ids_pool[:n]
+          qs = [{'method': 'm%d' % k, 'params': [k], 'id': i} for k, i in enumerate(ids)]
+          qsets = [qs, qs[:1] + [{'method': 'note', 'params': None, 'id': None}] + qs[1:]]
+          good = [resp(i, 'r', 'v%s' % k) for k, i in enumerate(ids)]
+          for qset in qsets:
+              # every permutation of the complete answer
+              for perm in itertools.permutations(good):
+                  out.append((qset, ('json', list(perm))))
+              # success/error mixes in reversed order
+              for kinds in itertools.product(('r', 'e', 'e3'), repeat=n):
+                  docs = [resp(i, k, 'v') for i, k in zip(ids, kinds)]
+                  out.append((qset, ('json', docs[::-1])))
+              # omissions, duplications, additions, type confusion, null ids
+              for k in range(n):
+                  out.append((qset, ('json', good[:k] + good[k + 1:])))
+                  out.append((qset, ('json', good + [good[k]])))
+                  conf = dict(good[k], id=str(ids[k]) if isinstance(ids[k], int) else 1)
+                  out.append((qset, ('json', good[:k] + [conf] + good[k + 1:])))
+                  out.append((qset, ('json', good[:k] + [resp(None, 'e')] + good[k:])))
+                  out.append((qset, ('json', good[:k] + [resp(None, 'r', 'extra')] + good[k:][::-1])))
+              out.append((qset, ('json', good + [resp(99, 'r', 'x')])))
+              out.append((qset, ('json', good + [resp(None, 'r', 1), resp(None, 'e')])))
+              out.append((qset, ('json', [])))
+              out.append((qset, ('json', resp(None, 'e'))))
+              out.append((qset, ('json', resp(None, 'e3'))))
+              out.append((qset, ('json', resp(1, 'e'))))
+              out.append((qset, ('json', {'jsonrpc': '2.0', 'id': None})))
+              out.append((qset, ('json', good[:-1] + [1])))
+              out.append((qset, ('json', good[:-1] + [{'jsonrpc': '2.0', 'id': ids[-1]}])))
+              out.append((qset, ('garbage', '[')))
+              out.append((qset, ('none',)))
     # all-notification batch and duplicate request ids
     nn = [{'method': 'a', 'params': None, 'id': None}, {'method': 'b', 'params': {'k': 1}, 'id': None}]
     for b in (('none',), ('empty',), ('json', []), ('json', [resp(1)])):
